@@ -1800,13 +1800,19 @@ class SQLModel:
                             sql_format_options.sql_indent + ")"
                         ]
                 sql_last = sequence.last_step.to_sql_str_list(
-                    db_model=self, force_sql=True, sql_format_options=sql_format_options
+                    columns=[c for c in ops.column_names],
+                    db_model=self,
+                    force_sql=True,
+                    sql_format_options=sql_format_options,
                 )
                 sql_str_list = ["WITH"] + sql_sequence + sql_last
         if sql_str_list is None:
             # non-with path
             sql_str_list = near_sql.to_sql_str_list(
-                db_model=self, force_sql=True, sql_format_options=sql_format_options
+                columns=[c for c in ops.column_names],
+                db_model=self,
+                force_sql=True,
+                sql_format_options=sql_format_options,
             )
         if sql_format_options.annotate:
             model_descr = re.sub(r"\s+", " ", str(self))
